@@ -68,6 +68,13 @@ def programs(tier):
         sorted_m = ("slice", ("sort", m, ((meprogs.B, False), (meprogs.A, False), (meprogs.C, False))), 0, 1)
         out += [("chain", sorted_m, ("slice", m, 0, 1)), ("chain", ("slice", m, 0, 1), sorted_m),
                 ("xfer", ("chain", sorted_m, ("slice", m, 0, 1)), "it2"), ("chain", ("sort", m, ((meprogs.B, False),)), m)]
+    for src in (("xfer", X, "sq"), ("sel", S, ("gt", meprogs.B, ("lit", "$k1")))):
+        msq = ("mat", src, "msq")
+        f1 = ("xfer", ("sel", msq, ("gt", meprogs.A, ("lit", "$k1"))), "it1")
+        f2 = ("xfer", ("calc", msq, "d", ("add", meprogs.A, meprogs.B)), "it1")
+        plain = ("xfer", msq, "it1")
+        out += [("chain", plain, f1), ("chain", f1, plain), ("chain", ("proj", f2, ("a", "b", "c")), plain), ("chain", plain, ("proj", f2, ("a", "b", "c"))),
+                ("chain", f1, ("xfer", ("sel", msq, ("lt", meprogs.A, meprogs.B)), "it1"))]
     selS = ("sel", S, ("gt", meprogs.A, ("lit", "$k1")))
     selX = ("sel", X, ("gt", meprogs.A, ("lit", "$k1")))
     for empty, live, other in ((("leaf", "0s"), selS, "it1"), (("leaf", "0i"), selX, "sq"), (("leaf", "0i"), selX, "it2")):
